@@ -128,51 +128,54 @@ theorem C51_fuel_irrelevant (sep : Char) (cs : List Char) (m : Nat) (hm : cs.len
     rowF sep m cs = row sep cs ∧ rowsF sep m cs = rows sep cs :=
   ⟨rowF_mono sep _ cs (Nat.lt_succ_self _) m hm, rowsF_mono sep _ cs (Nat.lt_succ_self _) m hm⟩
 
-/-! ## non-vacuity and reached branches -/
+/-! ## non-vacuity and reached branches
+
+(`decide +kernel`: evaluation by the kernel's reduction only — no compiler, no extra axiom; the
+elaborator's own evaluator is too slow on the call-by-name parser.) -/
 
 private def ex1 : Frame :=
   ⟨[.str "na,me".toList, .str "q\"t".toList, .str "two\r\nlines".toList],
-   [[.str " x ".toList, .int (-1234567), .null],
+   [[.str " x ".toList, .int (-12345678901234567890123), .null],
     [.flt "1.5e-10".toList, .str "12".toList, .int 0],
     [.str "ragged".toList]]⟩
 
 -- the hypotheses hold for an adversarial frame, under several option sets
-example : wf {} ex1 = true := by decide
-example : wf { sep := ';', withHeader := false, lineSep := ['\r', '\n'] } ex1 = true := by decide
-example : wf { sep := '\t', lineSep := ['\r'] } ex1 = true := by decide
+example : wf {} ex1 = true := by decide +kernel
+example : wf { sep := ';', withHeader := false, lineSep := ['\r', '\n'] } ex1 = true := by decide +kernel
+example : wf { sep := '\t', lineSep := ['\r'] } ex1 = true := by decide +kernel
 -- the documented example of the library
 example : writeCsv {} ⟨[.str "col1".toList, .str "col2".toList], [[.str "one".toList, .int 2], [.null, .str "three".toList]]⟩
-    = some "\"col1\",\"col2\"\n\"one\",2\n,\"three\"".toList := by decide
+    = some "\"col1\",\"col2\"\n\"one\",2\n,\"three\"".toList := by decide +kernel
 example : parseCsv {} "col1,col2,col3,col4\none,2,,three".toList
     = some ⟨[.str "col1".toList, .str "col2".toList, .str "col3".toList, .str "col4".toList],
-            [[.str "one".toList, .int 2, .null, .str "three".toList]]⟩ := by decide
+            [[.str "one".toList, .int 2, .null, .str "three".toList]]⟩ := by decide +kernel
 -- number-looking strings stay strings because they are quoted; bare ones are typed
 example : parseCsv { withHeader := false } "\"12\",12, 12,12 ,-  1.5,+1".toList
-    = some ⟨[], [[.str "12".toList, .int 12, .int 12, .str "12 ".toList, .flt "-1.5".toList, .str "+1".toList]]⟩ := by decide
+    = some ⟨[], [[.str "12".toList, .int 12, .int 12, .str "12 ".toList, .flt "-1.5".toList, .str "+1".toList]]⟩ := by decide +kernel
 -- the hypothesis "not a lone empty field" is necessary: such a line is "no line" in CSV
-example : (writeCsv {} ⟨[.str ['a']], [[.null], [.str ['b']]]⟩).bind (parseCsv {}) = some ⟨[.str ['a']], [[.str ['b']]]⟩ := by decide
+example : (writeCsv {} ⟨[.str ['a']], [[.null], [.str ['b']]]⟩).bind (parseCsv {}) = some ⟨[.str ['a']], [[.str ['b']]]⟩ := by decide +kernel
 -- null with a null_value text does not come back as null (the reader has no such option)
 example : (writeCsv { nullValue := some ['N', 'A'] } ⟨[.str ['a'], .str ['b']], [[.null, .int 1]]⟩).bind (parseCsv {})
-    = some ⟨[.str ['a'], .str ['b']], [[.str ['N', 'A'], .int 1]]⟩ := by decide
+    = some ⟨[.str ['a'], .str ['b']], [[.str ['N', 'A'], .int 1]]⟩ := by decide +kernel
 -- a frame without rows is fine in the documented format
-example : (writeCsv {} ⟨[.str ['a']], []⟩).bind (parseCsv {}) = some ⟨[.str ['a']], []⟩ := by decide
+example : (writeCsv {} ⟨[.str ['a']], []⟩).bind (parseCsv {}) = some ⟨[.str ['a']], []⟩ := by decide +kernel
 -- malformed: unterminated quote; text after a blank line
-example : parseCsv { withHeader := false } "a,\"bc".toList = none := by decide
-example : parseCsv { withHeader := false } "a,b\n\nc,d".toList = none := by decide
+example : parseCsv { withHeader := false } "a,\"bc".toList = none := by decide +kernel
+example : parseCsv { withHeader := false } "a,b\n\nc,d".toList = none := by decide +kernel
 -- ragged rows are accepted as they are
 example : parseCsv { withHeader := false } "a,b,c\nd\n".toList
-    = some ⟨[], [[.str ['a'], .str ['b'], .str ['c']], [.str ['d']]]⟩ := by decide
+    = some ⟨[], [[.str ['a'], .str ['b'], .str ['c']], [.str ['d']]]⟩ := by decide +kernel
 
 /-! ## the writer as the code stands (open findings) -/
 
 -- C51-1: `~w` prints the character list of a string field in list syntax
-example : writeCsvAsIs {} ⟨[.str "ab".toList], [[.int 1]]⟩ = some "[a,b]\n1".toList := by decide
+example : writeCsvAsIs {} ⟨[.str "ab".toList], [[.int 1]]⟩ = some "[a,b]\n1".toList := by decide +kernel
 example : (writeCsvAsIs {} ⟨[.str "ab".toList], [[.int 1]]⟩).bind (parseCsv {})
-    = some ⟨[.str "[a".toList, .str "b]".toList], [[.int 1]]⟩ := by decide
+    = some ⟨[.str "[a".toList, .str "b]".toList], [[.int 1]]⟩ := by decide +kernel
 -- C51-2: no clause of write_rows/3 for the empty list
-example : writeCsvAsIs {} ⟨[.int 1], []⟩ = none := by decide
+example : writeCsvAsIs {} ⟨[.int 1], []⟩ = none := by decide +kernel
 -- without string fields and with at least one row both writers agree
 example : writeCsvAsIs { sep := ';' } ⟨[.int 1, .null], [[.flt "2.5".toList, .int (-3)]]⟩
-    = writeCsv { sep := ';' } ⟨[.int 1, .null], [[.flt "2.5".toList, .int (-3)]]⟩ := by decide
+    = writeCsv { sep := ';' } ⟨[.int 1, .null], [[.flt "2.5".toList, .int (-3)]]⟩ := by decide +kernel
 
 end Scryer.Csv
